@@ -236,6 +236,7 @@ def judge(hid, line, lifetimes, h, mline, synth_val, project="full"):
     if h["child"] and h["child"].startswith("signal:"):
         J["c05"].append(dict(case=case, what=f"process terminated by {h['child']} (abort or crash) during the history"))
     import reallib as RL
+    prev_exit = None
     for li, ops in enumerate(lifetimes):
         ex = [r for r in recs if r.l == li and r.tag == "EXIT"]
         oprecs = {r.tag: r for r in recs if r.l == li and r.tag != "EXIT"}
@@ -253,6 +254,7 @@ def judge(hid, line, lifetimes, h, mline, synth_val, project="full"):
                 if ex.snap.get(t) != h["orig"].get(t):
                     J["c05"].append(dict(case=case, what=f"after unwinding lifetime {li} the bytes of {t} are {ex.snap.get(t)} instead of {h['orig'].get(t)}"))
         # counting semantics (fresh count per installation)
+        n06 = len(J["c06"])
         cur, count, order, expect_exit, stopped = {}, {}, [], None, False
         for oi, op in enumerate(ops):
             t = op.split(":")
@@ -278,6 +280,11 @@ def judge(hid, line, lifetimes, h, mline, synth_val, project="full"):
                 expect_exit = f"panic:count:{RL.SITE_N[bad[0]]}:{count[bad[0]]}" if bad else "normal"
             if parts[0] != expect_exit:
                 J["c06"].append(dict(case=case, what=f"lifetime {li} ended with {parts[0]}, the counting rule says {expect_exit}", counts={str(k): v for k, v in count.items()}))
+        # C05: "afterwards any thread can create a new injector and use it normally": the lifetime that follows one left by a panic
+        if prev_exit is not None and prev_exit.startswith("panic"):
+            for v in J["c06"][n06:]:
+                J["c05"].append(dict(case=case, what=f"lifetime {li - 1} was left by a panic ({prev_exit}); the injector created afterwards cannot be used normally: " + v["what"]))
+        prev_exit = parts[0]
     if h["end"] is not None and h["end"].get("rwx_equal") != "true" and "MPFAIL" not in line:
         J["c12"].append(dict(case=case, what="anonymous rwx mappings differ before/after the history", end=h["end"]))
     if J["crashed"] and not recs:
